@@ -326,7 +326,16 @@ def gen_clf_world(prop, root, w, tier):
     n_struct = int(rc.integers(1, 4))
     sids = []
     for k in range(n_struct):
-        a, meta = gens.gen_messy(rw, maxn=maxn)
+        want = [None, None, None, "surface_ads", "surface_ads", "single" if rw.random() < 0.3 else None][int(rw.integers(6))]
+        a, meta = gens.gen_messy(rw, maxn=maxn, want_kind=want)
+        if want == "surface_ads":
+            # keep the slab geometry: periodic in-plane, full-rank cell
+            a.pbc = [True, True, bool(rw.integers(2))]
+            meta = dict(meta, pbc="".join("T" if x else "F" for x in a.pbc))
+            if not a.cell.array.any(axis=1).all():
+                from ase.geometry import complete_cell as _cc
+
+                a.set_cell(_cc(a.cell.array), scale_atoms=False)
         if rw.random() < 0.15:
             # no cell at all (entirely non-periodic)
             a.set_cell([0, 0, 0], scale_atoms=False)
@@ -363,6 +372,9 @@ def gen_clf_world(prop, root, w, tier):
         script.append(op)
         if rw.random() < 0.3:
             script.append({"op": "RECHECK", "_lref": li})
+        if rw.random() < 0.25:
+            # boundary probing of the coverage knob on the same structure
+            script.append({"op": "CLASSIFY_EDGE", "s": op["s"], "inst": inst})
     spec["ops"] = interleave(scripts, rs)
     return spec
 
@@ -374,66 +386,113 @@ CRYSTAL_STRATS = ("int", "int", "gen", "uniform", "extreme", "undercoord", "chai
 STACK_STRATS = ("int", "int", "gen", "uniform", "undercoord", "interface", "interface", "chain")
 
 
+def _draw_sample(prop, rw, maxn):
+    if prop == "C03":
+        return gens.gen_stack(rw, maxn=maxn)
+    if prop == "C04" and rw.random() < 0.4:
+        return gens.gen_monolayer(rw, maxn=maxn)
+    if prop == "C04":
+        return gens.gen_crystal(rw, maxn=maxn, noises=(0, 0.02))
+    return gens.gen_crystal(rw, maxn=maxn)
+
+
 def gen_crystal_world(prop, root, w, tier):
+    """One long-lived SBC ("S") serves every operation of the world: several
+    seed-atom schedules on one crystal sample, on a second presentation of the
+    same sample (same atom count, other rotation / ordering / noise realisation)
+    and sometimes on a different sample, in a seeded interleaving."""
     T = TIERS[tier]
     rc = np_stream(root, prop, w, "config")
     rw = np_stream(root, prop, w, "workload")
     rsd = np_stream(root, prop, w, "seedatoms")
+    rs = stream(root, prop, w, "schedule")
     spec = _base_spec(prop, root, w, tier)
     maxn = T["crystal_maxn"]
     discarded = {}
-    sample = None
+    samples = []
+    want = 1 + int(rc.random() < 0.25)
     for _try in range(200):
-        if prop == "C03":
-            sample, why = gens.gen_stack(rw, maxn=maxn)
-        elif prop == "C04" and rw.random() < 0.4:
-            sample, why = gens.gen_monolayer(rw, maxn=maxn)
-        elif prop == "C04":
-            sample, why = gens.gen_crystal(rw, maxn=maxn, noises=(0, 0.02))
-        else:
-            sample, why = gens.gen_crystal(rw, maxn=maxn)
+        sample, why = _draw_sample(prop, rw, maxn)
         if sample is not None:
-            break
-        discarded[why] = discarded.get(why, 0) + 1
+            samples.append(sample)
+            if len(samples) >= want:
+                break
+        else:
+            discarded[why] = discarded.get(why, 0) + 1
     spec["config"] = dict(clients=1, policy="shared", faults=[], env=False, discarded=discarded)
-    if sample is None:
+    if not samples:
         return spec
-    a, recipe = sample[0], sample[1]
-    spec["structures"]["s0"] = atoms_to_spec(a, recipe)
-    if prop == "C04":
-        unit = sample[2]
-        spec["structures"]["unit"] = atoms_to_spec(unit, {"family": "unitcell", "material": recipe["material"]})
-    if prop == "C03":
-        expect = {"kind": "pair", "A": sample[2], "B": sample[3]}
-        strats = STACK_STRATS
-    elif prop == "C02":
-        expect = {"kind": "single", "dim": 3 if recipe["kind"] == "bulk" else 2}
-        strats = CRYSTAL_STRATS
-    else:
-        expect = None
-        strats = CRYSTAL_STRATS
-    n_sched = int(rc.integers(2, 5)) if tier == "quick" else int(rc.integers(3, 8))
-    if len(a) > 200:
-        n_sched = max(2, n_sched // 2)
-    ops = []
-    for k in range(n_sched):
-        op = {"op": "CLUSTER", "s": "s0", "params": {}, "seedspec": seed_strategy(a, rsd, allow=strats), "inst": "S"}
-        if expect:
-            op["expect"] = expect
-        if tier == "thorough" and k == 0:
-            op["xref"] = True
-        ops.append(op)
+    strats = STACK_STRATS if prop == "C03" else CRYSTAL_STRATS
+    structs = []  # (sid, atoms, recipe, expect, unit sid)
+    for k, sample in enumerate(samples):
+        a, recipe = sample[0], sample[1]
+        sid = "s%d" % k
+        usid = None
         if prop == "C04":
-            noise = recipe.get("noise", 0)
-            ops.append(
-                {
-                    "op": "ANALYZE",
-                    "ref": len(ops) - 1,
-                    "tol": 0.1 if not noise else 0.5,
-                    "source": "unit",
-                    "mono": recipe["family"] == "monolayer",
-                }
-            )
+            usid = "unit%d" % k
+            spec["structures"][usid] = atoms_to_spec(sample[2], {"family": "unitcell", "material": recipe["material"]})
+        if prop == "C03":
+            expect = {"kind": "pair", "A": sample[2], "B": sample[3]}
+        elif prop == "C02":
+            expect = {"kind": "single", "dim": 3 if recipe["kind"] == "bulk" else 2}
+        else:
+            expect = None
+        spec["structures"][sid] = atoms_to_spec(a, recipe)
+        structs.append((sid, a, recipe, expect, usid))
+        # a second presentation of the same sample: same atom count, other orientation / ordering
+        if rc.random() < 0.6:
+            sid2 = sid + "p"
+            if prop == "C03":
+                pres = gens.present_stack(sample[4], sample[5], recipe["noise"], rw)
+                if pres is not None:
+                    b, SA, SB = pres
+                    spec["structures"][sid2] = atoms_to_spec(b, dict(recipe, presentation=2))
+                    structs.append((sid2, b, recipe, {"kind": "pair", "A": SA, "B": SB}, usid))
+            else:
+                if recipe["family"] == "monolayer":
+                    b, _ = gens.present(sample[3], recipe["noise"], rw, rotate=bool(rw.integers(2)))
+                else:
+                    b = gens.represent_crystal(sample[3], recipe, rw)
+                if b is not None:
+                    spec["structures"][sid2] = atoms_to_spec(b, dict(recipe, presentation=2))
+                    structs.append((sid2, b, recipe, expect, usid))
+    n_sched = int(rc.integers(2, 5)) if tier == "quick" else int(rc.integers(3, 8))
+    total_atoms = sum(len(x[1]) for x in structs)
+    if total_atoms > 300:
+        n_sched = max(2, n_sched // 2)
+    a0 = structs[0][1]
+    # exhaustive-first: every atom in turn as the first seed (small structures only;
+    # reported per structure, never as exhaustiveness of the property)
+    exhaustive = len(structs) == 1 and len(a0) <= (60 if tier == "quick" else 120) and rc.random() < (0.1 if tier == "quick" else 0.2)
+    units = []  # groups of ops that stay together (CLUSTER + its ANALYZE)
+    if exhaustive:
+        spec["config"]["exhaustive_first"] = True
+    for sid, a, recipe, expect, usid in structs:
+        ns = len(a) if exhaustive else n_sched
+        for k in range(ns):
+            if exhaustive:
+                ss = {"kind": "script", "strategy": "exhaustive-first", "prio": [k], "then": "rand", "r": int(rsd.integers(0, 2**31 - 1))}
+            else:
+                ss = seed_strategy(a, rsd, allow=strats)
+            op = {"op": "CLUSTER", "s": sid, "params": {}, "seedspec": ss, "inst": "S"}
+            if expect:
+                op["expect"] = expect
+            if tier == "thorough" and k == 0:
+                op["xref"] = True
+            unit = [op]
+            if prop == "C04":
+                noise = recipe.get("noise", 0)
+                unit.append({"op": "ANALYZE", "_rel": -1, "tol": 0.1 if not noise else 0.5, "source": usid, "mono": recipe["family"] == "monolayer"})
+            units.append(unit)
+    # the op schedule: a seeded order of the units
+    rs.shuffle(units)
+    ops = []
+    for unit in units:
+        for op in unit:
+            op = dict(op)
+            if "_rel" in op:
+                op["ref"] = len(ops) + op.pop("_rel")
+            ops.append(op)
     spec["ops"] = ops
     return spec
 
